@@ -127,6 +127,16 @@ def check_case(case) -> Obs:
                 obs.bad("C19/empty-accepted", f"get_trough_wells({n}, empty) returned {res!r}")
             continue
         res = robotools.get_trough_wells(n, arg)
+        # the same call with the documented parameter names as keywords
+        if (n + len(flat)) % 3 == 0:
+            try:
+                res_kw = robotools.get_trough_wells(n=n, trough_wells=_build(case)[0])
+            except Exception as e:  # noqa
+                obs.bad("C19/keyword-call", f"get_trough_wells(n={n}, trough_wells=<{case['rep']} of {len(flat)}>) raised {type(e).__name__}: {e}")
+            else:
+                if [str(x) for x in res_kw] != [str(x) for x in res]:
+                    obs.bad("C19/keyword-call", f"n={n} rep={case['rep']}: the call with keywords returns {list(map(str, res_kw))[:10]}, the positional one {list(map(str, res))[:10]}")
+            obs.cls("keyword-call")
         if not isinstance(res, list):
             obs.bad("C19/type", f"result is {type(res).__name__}, not list")
             res = list(res)
